@@ -139,12 +139,12 @@ func (bav3pr builtAsciiVector2PropertyReader) ClaimsProperty(prop Property) bool
 }
 
 func (bav3pr builtAsciiVector2PropertyReader) Read(buf []string, i int64) error {
-	xParsed, err := strconv.ParseFloat(buf[bav3pr.xOffset], 32)
+	xParsed, err := strconv.ParseFloat(buf[bav3pr.xOffset], 64)
 	if err != nil {
 		return err
 	}
 
-	yParsed, err := strconv.ParseFloat(buf[bav3pr.yOffset], 32)
+	yParsed, err := strconv.ParseFloat(buf[bav3pr.yOffset], 64)
 	if err != nil {
 		return err
 	}
